@@ -665,6 +665,8 @@ pub fn run_scenario(req: &Value) -> Value {
 	let mut cas: Vec<CaServer> = vec![];
 	if let Some(a) = req.get("cas").and_then(|v| v.as_array()) {
 		for (i, cfg) in a.iter().enumerate() {
+			let cfg: Value = serde_json::from_str(&cfg.to_string().replace("@DIR@", &dir)).unwrap_or_else(|_| cfg.clone());
+			let cfg = &cfg;
 			let name = ca::cfg_str(cfg, "name", &format!("ca{i}"));
 			let tls = build_tls(&dir, cfg, &pkis);
 			cas.push(CaServer::start(&name, cfg, tls, None));
